@@ -4,6 +4,7 @@ cd "$(dirname "$0")/.."
 for d in seeded/*/; do
   id=$(basename $d)
   checks=$(python3 -c "import json;print(' '.join(json.load(open('$d/meta.json'))['detected_by']))")
+  [ -z "$checks" ] && { echo "== $id -> (neutralised, skipped)"; continue; }
   echo "== $id -> $checks"
   bin/seedtest.sh "$PWD/$d" $checks 2>&1 | grep -v "^baseline" | cut -c1-160
 done
